@@ -244,4 +244,30 @@ def _is_str(ip, args, kw):
 @spec("entry")
 def _entry(ip, args, kw):
     """entry('param'): the value the parameter had when the function was entered (parameters are mutable locals)."""
+    ce = getattr(ip, "_callee_entry", None)
+    if ce is not None and args[0].value in ce:
+        return ce[args[0].value]       # a callee's clause evaluated at a call site: the actual argument
     return ip.entry_env[args[0].value]
+
+
+@spec("pre_loop")
+def _pre_loop(ip, args, kw):
+    """pre_loop('name'): value of a local when the innermost enclosing loop was entered (before any of its iterations)."""
+    if not ip.loop_entry_stack:
+        raise Unsupported("pre_loop outside a loop")
+    depth = args[1].value if len(args) > 1 else 1
+    return ip.loop_entry_stack[-depth][args[0].value]
+
+
+@spec("getd")
+def _getd(ip, args, kw):
+    """getd(d, k, empty): d[k] of a defaultdict (the empty container for a missing key)."""
+    d, k = as_v(args[0]), as_v(args[1])
+    empty = L.EMPTY_SET if (len(args) > 2 and isinstance(args[2], PyC) and args[2].value == "set") else L.EMPTY_SEQ
+    return ZV(z3.If(L.has(d, k), L.get(d, k), empty), "seq")
+
+
+@spec("tag_")
+def _tag(ip, args, kw):
+    """tag_(x, 'Tag'): the same term, with the static tag that selects attribute / method handlers (no logical content)."""
+    return ZV(as_v(args[0]), args[1].value)
